@@ -14,7 +14,7 @@ RULE = ("E1: every labelled DAG up to the node bound x name style (ints incl. 0,
         "non-adjacent ordered pair, get_markov_blanket, moralize, get_ancestral_graph (every node subset); NaiveBayes "
         "overrides on all stars with <=3 features.  oracle: enumeration of all simple trails. non-trivial = distinct "
         "(graph, start, observed) where observing changes the reachable set")
-BOUNDS = {"quick": "all DAGs n<=4 (572), 3 name styles, 2 classes, latent subsets of size<=1 (all subsets for n<=3)",
+BOUNDS = {"quick": "all DAGs n<=4 (572), 3 name styles, 2 classes, latent subsets of size<=2 (all subsets for n<=3)",
           "thorough": "quick + all 29281 DAGs on 5 nodes (int names, DAG class, latent subsets of size<=1)"}
 EXHAUSTIVE = {"quick": True, "thorough": True}
 ASSUMPTIONS = ["start node not in the observed set (the definition leaves that case open)",
@@ -72,7 +72,7 @@ def run_group(g, tier):
     dags = _dags(n)
     for i in range(g["lo"], g["hi"]):
         edges = dags[i]
-        lat_sets = list(subsets(range(n), None if n <= 3 else 1))
+        lat_sets = list(subsets(range(n), None if n <= 3 else 2))
         if n == 5:
             lat_sets = lat_sets[:1] + ([lat_sets[1 + i % 5]] if i % 7 == 0 else [])
         for lat in lat_sets:
